@@ -268,6 +268,11 @@ def step (s : St) (line : String) : IO St := do
   | "clone" :: i :: j :: rest =>
     let (pre, _, ir) := splitDR rest
     s.runSetE "clone" (N i) (pure (cloneE c (s.get (N j)))) [] ir (splitA pre).2
+  | "clonefrom" :: i :: j :: rest =>
+    -- `dst.clone_from(&src)` with `dst` the set slot i holds: `*dst = src.clone()` (the default implementation)
+    let (pre, _, ir) := splitDR rest
+    let (r, t) := cloneE c (s.get (N j))
+    s.runSetE "clonefrom" (N i) (pure (r, t ++ dropE c (s.get (N i)))) [] ir (splitA pre).2
   | "ins" :: i :: v :: ret :: rest =>
     let (pre, ds, ir) := splitDR rest
     s.runRet "ins" (N i) (insertE c (c.W == 64) uRng FUEL (s.get (N i)) (N v)) ret (toks2nats ds) ir (splitA pre).2
@@ -340,7 +345,12 @@ def step (s : St) (line : String) : IO St := do
   | "iter" :: i :: _n :: xs => cmpList s s!"iter:{layoutTag c (s.get (N i))}" (elems c (s.get (N i))) (toks2nats xs)
   | "drain" :: i :: _n :: rest =>
     let (pre, _, ir) := splitDR rest
+    let (pre, aimpl) := splitA pre
     let (r', items) := drain c (s.get (N i))
+    let want := (dropE c (s.get (N i))).map (showEv c)
+    if aimpl.isSome && aimpl != some want then
+      s.fail s!"drain: allocator calls differ; model {want} impl {aimpl.getD []} on {showR c.codec (s.get (N i))}"
+    else
     if items != toks2nats pre then s.fail s!"drain: items differ; model {items.take 40} impl {pre.take 40}"
     else if !(irMatches c.codec (parseIR ir) r') then s.fail s!"drain: set not empty afterwards: impl {ir.take 10}"
     else pure ((s.set (N i) r').bump "op:drain")
